@@ -650,7 +650,7 @@ func init() {
 		if !instrOn {
 			n = 4
 		}
-		dl := deadline(r, 50*time.Second, 15*time.Minute)
+		dl := deadline(r, 120*time.Second, 15*time.Minute)
 		for _, wr := range shard.Run(n, []string{"C18", r.Tier}, 120*time.Second, dl) {
 			var ex evid.Export
 			if wr.Died {
@@ -670,7 +670,7 @@ func init() {
 		c18W, c18N = w, n
 		registerStandardExt()
 		c18stats = NewStats()
-		dl := deadline(r, 50*time.Second, 15*time.Minute)
+		dl := deadline(r, 120*time.Second, 15*time.Minute)
 		exploreChoiceOpts(r, "c18.evidence", -1, dl, 1)
 		exploreChoiceOpts(r, "c18.alias", -1, dl, 1)
 		exploreChoiceOpts(r, "c18.buffer-reuse", -1, dl, 1)
